@@ -34,16 +34,53 @@ Definition node_obs_ok (h : erht) (o : ticket * option ticket) : bool :=
   | None => false
   end.
 
+(* a member in full: id, ((key, value), movedAt), removedAt *)
+Definition fullnode := (ticket * (N * Z * option ticket * option ticket))%type.
+
+Definition full_ok (h : erht) (o : fullnode) : bool :=
+  let '(id, (kv_m, rm)) := o in
+  let '(kv, mv) := kv_m in
+  match nget (nodes h) id with
+  | Some n => N.eqb (rn_key n) (fst kv) && Z.eqb (rn_val n) (snd kv) &&
+              option_eqb teqb (rn_moved n) mv && option_eqb teqb (rn_removed n) rm
+  | None => false
+  end.
+
+Definition link_ok (h : erht) (o : N * ticket) : bool :=
+  match kget (by_key h) (fst o) with Some id => teqb id (snd o) | None => false end.
+
+Definition table_ok (h : erht) (ns : list fullnode) (ls : list (N * ticket)) : bool :=
+  forallb (full_ok h) ns && Nat.eqb (length (nodes h)) (length ns) &&
+  forallb (link_ok h) ls && Nat.eqb (length (by_key h)) (length ls).
+
+(* the members in the order they were encoded *)
+Fixpoint pick (h : erht) (order : list ticket) : option (list rnode) :=
+  match order with
+  | [] => Some []
+  | id :: r => match nget (nodes h) id, pick h r with Some n, Some l => Some (n :: l) | _, _ => None end
+  end.
+
 Inductive erhtcase :=
 | KErht (ops : list (eop * (bool * list (N * Z)))) (obs_nodes : list (ticket * option ticket))
+        (full : list fullnode) (links : list (N * ticket))
+        (snapshot : option (list ticket * (list fullnode * list (N * ticket))))
 | KCounter (is_long : bool) (start : Z) (deltas : list Z) (obs : Z)
 | KRht (ops : list (aop * list (N * Z))).   (* each op with the live attributes (ascending key) observed after it *)
 
 Definition erhtcheck (c : erhtcase) : bool :=
   match c with
-  | KErht ops onodes =>
+  | KErht ops onodes full links snap =>
       let '(ok, h) := erun empty_erht ops in
-      ok && forallb (node_obs_ok h) onodes && Nat.eqb (length (nodes h)) (length onodes)
+      ok && forallb (node_obs_ok h) onodes && Nat.eqb (length (nodes h)) (length onodes) &&
+      table_ok h full links &&
+      match snap with
+      | None => true
+      | Some (order, (dnodes, dlinks)) =>
+          match pick h order with
+          | Some l => Nat.eqb (length l) (length (nodes h)) && table_ok (rht_decode l) dnodes dlinks
+          | None => false
+          end
+      end
   | KCounter is_long start deltas obs =>
       Z.eqb (fold_left (counter_increase is_long) deltas start) obs
   | KRht ops =>
